@@ -47,7 +47,7 @@ FLOORS = {'*': {**{f'{v}:{o}': 30 for v in ('jsonschema', 'pydantic') for o in (
                 'client-sets-excluded': 30, 'client-sets-context': 30, 'style:view': 100, 'style:async': 100, 'passing:named': 300,
                 'passing:positional': 300, 'refusal-data-checked': 300, 'pydantic:live-exception-in-error': 5,
                 'jsonschema:required-or-additional': 50, 'no-arguments-call': 50, 'twin-registration-calls': 100,
-                'pydantic:default-none-on-non-optional': 50, 'jsonschema:declares-draft-04': 50}}
+                'pydantic:default-none-on-non-optional': 50, 'jsonschema:declares-draft-04': 50, 'pydantic:postponed-annotations': 100}}
 
 ABSENT = '__absent__'
 
@@ -195,12 +195,23 @@ def render(params, with_ctx, skip, style, annotate):
     return head + '\n' + body
 
 
-def build(params, with_ctx, skip, style, validator, deco_kwargs, annotate):
+def build(params, with_ctx, skip, style, validator, deco_kwargs, annotate, postponed=False):
     src = render(params, with_ctx, skip, style, annotate)
     ns = dict(NS, LOG=[], VIEWS=[], __name__='vmon_c14_programs')
+    if postponed:
+        # the method lives in a real module that postpones the evaluation of its annotations (PEP 563): they reach the
+        # validator as strings and mean what they mean in THAT module
+        import sys
+        import types
+        mod = types.ModuleType('vmon_c14_postponed')
+        mod.__dict__.update(ns, __name__='vmon_c14_postponed')
+        sys.modules['vmon_c14_postponed'] = mod
+        ns = mod.__dict__
     if style == 'view':
         src = ('class View(ViewMixin):\n    def __init__(self, context=None):\n        super().__init__()\n'
                '        VIEWS.append(context)\n' + '\n'.join('    ' + l for l in src.splitlines()))
+    if postponed:
+        src = 'from __future__ import annotations\n' + src
     exec(compile(src, '<vmon_c14_programs>', 'exec', dont_inherit=True), ns)
     is_async = style == 'async'
     disp = (pjrpc.server.AsyncDispatcher if is_async else pjrpc.server.Dispatcher)()
@@ -238,7 +249,7 @@ def bind_model(params, case, has_skip):
     return m
 
 
-def twin_registration_call(ctx, disp, is_async, ns, src, goods, conforms, vname):
+def twin_registration_call(ctx, disp, is_async, ns, src, goods, conforms, vname, tag=''):
     """one call through the context-less registration of the same function (before and between the judged calls)"""
     case = dict(goods, ctx='plain-value')
     st, out, _ = call(disp, is_async, case, ns, method='f2')
@@ -246,7 +257,7 @@ def twin_registration_call(ctx, disp, is_async, ns, src, goods, conforms, vname)
     wit = dict(source=src, params=case, method='f2 (same function, no context designation)', validator=vname)
     ctx.hit('twin-registration-calls')
     verdict, rec = judge_common(ctx, f'{vname}:twin-registration', cls, wit, st, out, ns, None, conforms, None if conforms else 'schema',
-                                False, 'def')
+                                False, 'def', tag=tag)
     if verdict == 'ran':
         if rec.get('ctx') != 'plain-value':
             ctx.violation('twin-registration:ordinary-parameter-not-passed', f'{vname}:twin-registration', cls, executions=_safe([rec]), **wit)
@@ -267,37 +278,37 @@ def call(disp, is_async, case, ns, method='f'):
     return 'ret', out, CTX
 
 
-def judge_common(ctx, fam, cls, wit, st, out, ns, CTX, should_run, refusal_kind, with_ctx, style):
+def judge_common(ctx, fam, cls, wit, st, out, ns, CTX, should_run, refusal_kind, with_ctx, style, tag=''):
     """shared part: refusals, run-once, context. Returns ('violated'|'refused'|'ran', run record)."""
     if st == 'exc':
-        ctx.violation(f'dispatch-raises:{type(out).__name__}:{refusal_kind or "accepted"}', fam, cls, exception=out, **wit)
+        ctx.violation(f'dispatch-raises:{type(out).__name__}:{refusal_kind or "accepted"}' + tag, fam, cls, exception=out, **wit)
         return 'violated', None
     try:
         doc = strictjson.decode(out[0])
     except Exception:
-        ctx.violation('unreadable-response', fam, cls, returned=out, **wit)
+        ctx.violation('unreadable-response' + tag, fam, cls, returned=out, **wit)
         return 'violated', None
     wit['response'] = doc
     runs = list(ns['LOG'])
     code = doc['error']['code'] if 'error' in doc else 0
     if not should_run:
         if runs:
-            ctx.violation(f'method-ran-although-call-must-be-refused:{refusal_kind}', fam, cls, executions=_safe(runs), **wit)
+            ctx.violation(f'method-ran-although-call-must-be-refused:{refusal_kind}' + tag, fam, cls, executions=_safe(runs), **wit)
             return 'violated', None
         if code != -32602:
-            ctx.violation(f'refusal-not-32602:code{code}:{refusal_kind}', fam, cls, **wit)
+            ctx.violation(f'refusal-not-32602:code{code}:{refusal_kind}' + tag, fam, cls, **wit)
             return 'violated', None
         ctx.hit('refusal-data-checked')
         return 'refused', None
     if len(runs) != 1 or code != 0:
-        ctx.violation(f'conforming-call-not-executed:code{code}', fam, cls, executions=_safe(runs), **wit)
+        ctx.violation(f'conforming-call-not-executed:code{code}' + tag, fam, cls, executions=_safe(runs), **wit)
         return 'violated', None
     if doc.get('result') != 'done':
-        ctx.violation('result-altered', fam, cls, **wit)
+        ctx.violation('result-altered' + tag, fam, cls, **wit)
         return 'violated', None
     rec = runs[0]
     if with_ctx and style != 'view' and rec.get('ctx') is not CTX:
-        ctx.violation('context-parameter-not-the-server-context', fam, cls, **wit)
+        ctx.violation('context-parameter-not-the-server-context' + tag, fam, cls, **wit)
         return 'violated', None
     return 'ran', rec
 
@@ -428,12 +439,14 @@ def js_cases(ctx, plist, frags, with_ctx, skip):
 
 # ---- pydantic programs -----------------------------------------------------------------------------------
 
-def run_pd(ctx, params, with_ctx, skip, style, coerce):
+def run_pd(ctx, params, with_ctx, skip, style, coerce, postponed=False):
     """params: [(name, kind, has_default, annotation)]"""
+    if postponed:
+        ctx.hit('pydantic:postponed-annotations')
     plist = [tuple(p) for p in params]
     validator = vpd.PydanticValidator(coerce=coerce, exclude_param=(lambda name, ann, default: name == 'skip') if skip else None)
     try:
-        ns, src, disp, is_async = build(plist, with_ctx, skip, style, validator, {}, annotate=True)
+        ns, src, disp, is_async = build(plist, with_ctx, skip, style, validator, {}, annotate=True, postponed=postponed)
     except Exception as e:
         ctx.violation(f'registration-raises:{type(e).__name__}', 'pydantic', (repr(params),), exception=e)
         return
@@ -474,7 +487,7 @@ def run_pd(ctx, params, with_ctx, skip, style, coerce):
     goods = {n: next(e[0] for e in ANNOT[p[3]] if e[1] in ('ok', 'coerce')) for n, p in zip(names, plist)}
     for n_case, (case, entries) in enumerate(cases):
         if twin and n_case % 5 == 0:
-            twin_registration_call(ctx, disp, is_async, ns, src, goods, True, 'pydantic')
+            twin_registration_call(ctx, disp, is_async, ns, src, goods, True, 'pydantic', tag=':postponed-annotations' if postponed else '')
         st, out, CTX = call(disp, is_async, case, ns)
         m = bind_model(plist, case, skip)
         statuses = {}
@@ -498,7 +511,8 @@ def run_pd(ctx, params, with_ctx, skip, style, coerce):
         if live:
             ctx.hit('pydantic:live-exception-in-error')
         verdict, rec = judge_common(ctx, fam, cls, wit, st, out, ns, CTX, conforms,
-                                    kind + (':live-exception-in-details' if live else '') if kind else None, with_ctx, style)
+                                    kind + (':live-exception-in-details' if live else '') if kind else None, with_ctx, style,
+                                    tag=':postponed-annotations' if postponed else '')
         if verdict == 'refused':
             ctx.ok(fam + ':refused-' + kind, cls, sample=wit)
         if verdict != 'ran':
@@ -577,12 +591,13 @@ def gen(ctx):
                         a = rng.choice(['str', 'Optional[int]'])       # defaults must conform to the annotation
                 plist.append([n, kind, dflt, a])
             yield 'pd', dict(params=plist, with_ctx=bool(k % 2), skip=bool((k // 2) % 2),
-                             style=('def', 'async', 'view', 'def')[k % 4], coerce=bool((k // 4) % 2))
+                             style=('def', 'async', 'view', 'def')[k % 4], coerce=bool((k // 4) % 2), postponed=(k % 3 == 0))
     # every annotation alone, both coercion modes, every table entry
     for a in anns:
         for coerce in (True, False):
             for style in ('def', 'view'):
                 yield 'pd', dict(params=[['a', 'PK', False, a]], with_ctx=False, skip=False, style=style, coerce=coerce)
+                yield 'pd', dict(params=[['a', 'PK', False, a]], with_ctx=False, skip=False, style=style, coerce=coerce, postponed=True)
                 yield 'pd', dict(params=[['a', 'PK', False, a], ['b', 'KO', True, 'str']], with_ctx=True, skip=True, style=style, coerce=coerce)
                 if not a.startswith('Optional'):
                     yield 'pd', dict(params=[['a', 'PK', 'none', a], ['b', 'KO', 'none', a]], with_ctx=False, skip=False, style=style, coerce=coerce)
